@@ -114,7 +114,15 @@ func nsHostFor(target string) string {
 
 var kinds []*attackKind
 
+// nBaseKinds: kinds[:nBaseKinds] share the case index space 0,1,2,…;
+// kinds[nBaseKinds:] were added later (see extraIndexBase).
+var nBaseKinds int
+
 func init() {
+	defer func() {
+		nBaseKinds = len(kinds)
+		kinds = append(kinds, burstKinds()...)
+	}()
 	kinds = []*attackKind{
 		// ---------------------------------------------------------------- spoof --
 		{
